@@ -283,6 +283,7 @@ struct Exec<'a> {
     foreign: bool,
     limits: bool,
     script: bool,
+    reject: bool,
     cur_id: u32,
     done: bool,
     any_hard_fault: bool,
@@ -804,7 +805,7 @@ impl<'a> Exec<'a> {
         let check = self.cfg.oracles && !self.tainted;
         let stream_op = matches!(op, Op::WriteStream { .. } | Op::RemoveStream { .. } | Op::RemoveSignature);
         // snapshot before any call that may be refused
-        let before: Option<Snap> = if check && expect != Expect::Ok {
+        let before: Option<Snap> = if check && (expect != Expect::Ok || self.reject) {
             match self.working_snapshot() {
                 Some(s) => Some(s),
                 None => {
@@ -912,6 +913,19 @@ impl<'a> Exec<'a> {
                         self.viol("C02.edit-preserves", site, m.clone());
                     }
                     self.viol("C20.within-refused", site, m);
+                    // unexpected or not, a refusal must change nothing
+                    if let Some(b) = before.as_ref() {
+                        if let Some(after) = self.working_snapshot() {
+                            if *b != after {
+                                let what = describe_snap_diff(b, &after);
+                                self.viol(
+                                    "C04.err-unchanged",
+                                    site,
+                                    format!("refused {} changed the package: {} [{}]", op.kind(), what, brief_op(op)),
+                                );
+                            }
+                        }
+                    }
                 }
                 self.done = true;
                 return;
@@ -1788,6 +1802,7 @@ pub fn run(trace: &Trace, cfg: &ExecCfg) -> RunResult {
         foreign,
         limits,
         script: trace.profile == "script",
+        reject: trace.profile == "reject",
         cur_id: 0,
         done: false,
         any_hard_fault: false,
